@@ -14,6 +14,7 @@ import NodisVerif.Driver.FloatOps
 import NodisVerif.Model.Feed
 import NodisVerif.Driver.PatchOps
 import NodisVerif.Model.FeedWire
+import NodisVerif.Driver.TxProgOps
 open NodisVerif
 
 structure DState where
@@ -171,7 +172,17 @@ partial def loop (h : IO.FS.Stream) (out : IO.FS.Stream) (st : DState) : IO Unit
   out.putStrLn o
   loop h out st'
 
-def main : IO Unit := do
+def main (args : List String) : IO UInt32 := do
   let out ← IO.getStdout
-  loop (← IO.getStdin) out {}
-  out.flush
+  match args with
+  | "txprog" :: file :: rest =>
+    -- is the recorded trace a trace of the program model Model/TxProg.lean?
+    let lines ← IO.FS.lines file
+    let bound := (rest.head?.bind (·.toNat?)).getD 0
+    out.putStrLn (Driver.txprogReplay lines bound)
+    out.flush
+    return 0
+  | _ =>
+    loop (← IO.getStdin) out {}
+    out.flush
+    return 0
